@@ -27,6 +27,8 @@ func runC09(c *Ctx) {
 	r.Rule("C09.R2", "PeerConnection.greaterMid is only ever increased: every write is `++`, `+= positive constant`, or `= x` dominated by a true test `x > pc.greaterMid`; every write holds pc.mu exclusively; the constructor initialises it to a negative constant", 4)
 	r.Rule("C09.R3", "section order: generateMatchedSDP and generateUnmatchedSDP only tail-append section literals to the list handed to populateSDP; no remote-loop append is reachable after an unmatched-transceiver or data append, no transceiver append after the data append; populateSDP emits the list by a forward range", 12)
 	r.Rule("C09.R4", "fresh-mid provenance (shared with C06.R1): section ids derive from the remote mid, the section's transceiver or a guarded Plan-B constant; SetMid arguments from the remote mid or the allocator incremented before every use", 13)
+	r.Rule("C09.R5", "fresh-mid allocation sees every existing mid: each iteration of CreateOffer's scans over the current remote description's sections and over the transceivers either compares the element's mid with greaterMid (raise) / allocates with ++, or skips only because the element has no mid or a non-numeric one", 2)
+	r.Rule("C09.R6", "a data-section mid computed from len(sections) is evaluated at the data section's own append, after every other section was appended (keeps the recorded len-based-mid finding from colliding inside one description)", 1)
 	r.NotCovered = append(r.NotCovered,
 		"position stability when the remote peer reorders or removes its m-sections",
 		"atomicity of SetMid's check-then-store against a concurrent SetMid",
@@ -37,6 +39,8 @@ func runC09(c *Ctx) {
 	c09Rules(c)
 	c06Agree386(c, "C09.R1", c09Rules)
 	c06Dump(c)
+	c09R5(c, "C09.R5")
+	c09R6(c, "C09.R6")
 }
 
 // c09Rules runs every rule of the property on the program held by c.
